@@ -26,7 +26,7 @@ ORDER = {'lie': 1, 'lieK': 1, 'strang': 2, 'yoshida': 4, 'kahan_li': 6}
 def space(tier):
     q = tier == 'quick'
     return {'chain length': [2, 3, 4] if q else [2, 3, 4, 5, 6], 'forms': ['hom n=2', 'hom n=3', 'inhom equal dims', 'inhom site-dependent dims'],
-            'interaction': ['2d', 'r1', 'r2'], 'family': ['real', 'complex', 'skew'], 'initial rank': [1, 2, 'max'], 'h': [0.1, 0.5],
+            'interaction': ['2d', 'r1', 'r2'], 'family': ['real', 'complex', 'skew', 'defective (non-diagonalisable generators)'], 'initial rank': [1, 2, 'max'], 'h': [0.1, 0.5],
             'steps': [1, 2], 'normalize': [0, 2], 'schemes': SCHEMES}
 
 
@@ -40,7 +40,7 @@ def cases(tier):
             forms = [('hom', [2] * d), ('inhom', [2] * d)]
         for form, dims in forms:
             for inter in ('2d', 'r1', 'r2'):
-                for fam in ('real', 'complex', 'skew'):
+                for fam in ('real', 'complex', 'skew', 'defective'):
                     for r0 in (1, 2, 'max'):
                         for h in (0.1, 0.5):
                             for nz in (0, 2):
@@ -62,6 +62,14 @@ def gen_components(rng, dims, form, inter, fam):
     S, L, I, M = [], [], [], []
     for i in range(d):
         n = dims[i]
+        if fam == 'defective':
+            # pure-birth-like rate matrices with equal rates and nilpotent couplings: the two-site generators are
+            # triangular with repeated eigenvalues, i.e. not diagonalisable
+            S.append(-0.5 * np.eye(n) + np.diag(0.5 * np.ones(n - 1), -1))
+            Li = np.stack([np.diag(np.ones(n - 1), -1) for _ in range(r)], axis=2)
+            Mi = np.stack([np.diag(np.ones(n - 1), 1 if kk % 2 else -1) + (0.0 if kk % 2 else 0.0) for kk in range(r)], axis=0)
+            L.append(0.7 * Li); M.append(Mi); I.append(np.eye(n))
+            continue
         if fam == 'skew':
             S.append(-1j * herm(n))
             Li = np.stack([-1j * herm(n) for _ in range(r)], axis=2)
@@ -149,7 +157,7 @@ def run_case(case, seed):
     He, Ho, Ks = dense_generators(S, L, I, M, dims)
     H = He + Ho
     rk = max_ranks(dims) if case['r0'] == 'max' else [1] + [min(case['r0'], m) for m in max_ranks(dims)[1:-1]] + [1]
-    x0t = tt_from(rand_cores(rng, dims, [1] * d, rk, fam != 'real'))
+    x0t = tt_from(rand_cores(rng, dims, [1] * d, rk, fam in ('complex', 'skew')))
     x0t = (1.0 / x0t.norm()) * x0t
     x0 = vec(x0t)
     sX = snap(x0t)
@@ -219,5 +227,25 @@ def run_case(case, seed):
                 r.count('order_checks')
             else:
                 r.count('order_checks_outside_window')
+    # history: the SAME component objects are passed again after their contents were changed in place (time-dependent
+    # fields): the second call must use the new values
+    if nz == 0 and h == 0.1 and case['r0'] == 1:
+        Sx, Lx, Ix, Mx = [copy_comp(X) for X in comp0]
+        for scheme in ('lie', 'strang', 'yoshida', 'kahan_li'):
+            with r.op(scheme + ':reuse:call'):
+                fns[scheme](Sx, Lx, Ix, Mx, x0t, h, 1, threshold=0, max_rank=50, normalize=0)
+                if isinstance(Sx, list):
+                    Sx[-1] *= 0.5; Sx[0] = Sx[0] * 2.0
+                else:
+                    Sx *= 0.5
+                sol = fns[scheme](Sx, Lx, Ix, Mx, x0t, h, 1, threshold=0, max_rank=50, normalize=0)
+                He2, Ho2, _ = dense_generators(Sx, Lx, Ix, Mx, dims)
+                if meta_problem(sol[-1]) is None:
+                    r.close(scheme + ':reuse:state', vec(sol[-1]), step_matrix(scheme, He2, Ho2, h) @ x0, 1e-9,
+                            'second call with the same component objects after an in-place change of S')
+                if isinstance(Sx, list):
+                    Sx[-1] *= 2.0; Sx[0] = Sx[0] * 0.5
+                else:
+                    Sx *= 2.0
     r.true('splitting:initial-unchanged', unchanged(x0t, sX), 'initial state modified')
     return r
